@@ -157,6 +157,18 @@ PROPS = {
         not_covered=["sum_of_products_pippinger (six nested loops): not decided", "sum_of_products_precomp_256: not decided"],
         assumptions=["Kani 0.68 / CBMC 6.11", A['TOOLS']],
     ),
+    'C13': dict(
+        units_quick=['okm'], units_thorough=['okm'], timeout=600,
+        claim="PARTIAL (the reductions and the block splitting): Fq::from_okm(b) = be(b) mod q for every 64-byte block and Fr::from_okm(b) = be(b) mod r for every "
+              "48-byte block (real bodies: two zero-padded big-endian reads, multiplication by the crate's constant 2^256 resp. 2^192, addition; the unwrap()s are "
+              "proved safe because each half is below 2^256 < q resp. 2^192 < r); Fq2::from_ro takes the real part from bytes 0..64 and the u-coefficient from "
+              "64..128; hash_to_field returns `count` elements, element i obtained from bytes [i*L, (i+1)*L) of expand_message(msg, dst, count*L) (generic real "
+              "body, loop invariant; requires count*L not to overflow usize).",
+        not_covered=["expand_message_xmd / expand_message_xof (digest builder chains, GenericArray, closures: outside the subset) - NOT decided",
+                     "the 255-block abort", "the values of the constants F_2_256 / F_2_192 are closed-term facts (stated as axioms here, proved in unit consts when present)"],
+        assumptions=["D1/D2 contracts of read_be over Cursor/Chain readers, GenericArray slicing and typenum lengths (assumed stubs)", A['D_FQ'], A['TOOLS'],
+                     "rewrite R12 (range indexing on GenericArray / Vec -> named accessors)"],
+    ),
 }
 
 HOOK_COMMITS = []
